@@ -143,3 +143,16 @@ func VerifC06CloseStep() {
 	vf.Class("")
 	vf.Reach("end")
 }
+
+// VerifC08TrackCountLimit: the SMF header states the number of tracks in 16 bits; a track
+// count it cannot state is refused (never a file whose header declares another count).
+func VerifC08TrackCountLimit() {
+	n := []int{65535, 65536, 65537, 70000, 1 << 20}[vf.NondetIntRange("count", 0, 4)]
+	sel, err := NewTrackNoSelector(n)
+	if n <= 65535 {
+		vf.Assert("statable-count-accepted", err == nil && sel != nil)
+	} else {
+		vf.Assert("unstatable-track-count-refused", err != nil && sel == nil)
+	}
+	vf.Reach("end")
+}
